@@ -34,15 +34,37 @@ OPS = [(" == ", " != "), (" != ", " == "), (" < ", " <= "), (" <= ", " < "), (" 
        (" += 1", " += 2"), (" -= 1", " -= 2"), ("append(", "insert(0, "), (" in ", " not in "), (" not in ", " in ")]
 
 
+def string_spans(src):
+    """(line index, col start, col end) of every string / comment token: mutations inside them change no behaviour"""
+    import io
+    import tokenize
+    import textwrap
+    spans = []
+    ded = textwrap.dedent(src)
+    shift = len(src.split("\n")[0]) - len(ded.split("\n")[0])
+    try:
+        for tok in tokenize.generate_tokens(io.StringIO(ded).readline):
+            if tok.type in (tokenize.STRING, tokenize.COMMENT) or tok.type == getattr(tokenize, "FSTRING_MIDDLE", -1):
+                (l0, c0), (l1, c1) = tok.start, tok.end
+                for ln in range(l0, l1 + 1):
+                    spans.append((ln - 1, (c0 if ln == l0 else 0) + shift, (c1 if ln == l1 else 10 ** 6) + shift))
+    except (tokenize.TokenError, IndentationError):
+        pass
+    return spans
+
+
 def mutants_of(src):
     out = []
     lines = src.split("\n")
+    spans = string_spans(src)
     for li, line in enumerate(lines):
         stripped = line.strip()
         if not stripped or stripped.startswith(("#", '"""', "'''", "def ", "@")) or "logger." in line:
             continue
         for old, new in OPS:
             for m in re.finditer(re.escape(old), line):
+                if any(l == li and c0 <= m.start() < c1 for (l, c0, c1) in spans):
+                    continue
                 ml = line[:m.start()] + new + line[m.end():]
                 cand = "\n".join(lines[:li] + [ml] + lines[li + 1:])
                 try:
